@@ -107,7 +107,8 @@ const NumUBJContexts = 7
 
 func UBJContext(ctx int, v []byte) []byte {
 	seven := []byte{'i', 7}
-	switch ctx {
+	// (ordered so that a scope of the first three contexts has: top level, an object value followed by a member, an array element)
+	switch []int{0, 3, 1, 2, 4, 5, 6}[ctx] {
 	case 0:
 		return v
 	case 1:
